@@ -70,7 +70,7 @@ _RE_COMMA_SEPARATED_WORD_LIST = re.compile(r'''
 _RE_FIELD_LINE = re.compile(r'''
     ^                                          # Start of line
     (?P<field_name>                            # Capture group for the field name
-        [\x21\x22\x24-\x2C\x2F-\x39\x3B-\x7F]  # First character
+        [\x21\x22\x24-\x2C\x2E-\x39\x3B-\x7F]  # First character
         [\x21-\x39\x3B-\x7F]*                  # Subsequent characters (if any)
     )
     (?P<separator> : )
